@@ -646,6 +646,16 @@ def r6_chiplets(ctx, F):
             ctx.violation("chiplet-selector|%d" % i, "air/src/constraints/chiplets/mod.rs", "chiplet selector constraint %s missing" % V.pretty(w))
 
 
+class _Sub:
+    """adapter: groups (base, prime, subscript, prime) of the identifier pattern with either {..} or single-char subscript"""
+    def __init__(self, m):
+        self.m = m
+
+    def group(self, i):
+        m = self.m
+        return {1: m.group(1), 2: m.group(2), 3: m.group(3) if m.group(3) is not None else m.group(4), 4: m.group(5)}[i]
+
+
 def latex_constraint_poly(expr, resolve, presub=()):
     """polynomial of a documented constraint's left-hand side; resolve(base, subscript, primed) -> Poly"""
     from . import decdocs
@@ -665,7 +675,7 @@ def latex_constraint_poly(expr, resolve, presub=()):
         ident = "V%d" % len(env)
         env[ident] = v
         return ident
-    e = re.sub(r"(?<![A-Za-z\\])([a-z])('?)(?:_\{?([0-9a-z])\}?)?('?)", name, e)
+    e = re.sub(r"(?<![A-Za-z\\])([a-z])('?)(?:_(?:\{([0-9a-z]+)\}|([0-9a-z])))?('?)", lambda m: name(_Sub(m)), e)
     e = re.sub(r"(V\d+)\s*\^\s*2", r"(\1*\1)", e)
     # ( ... )^2
     while True:
@@ -691,28 +701,53 @@ def latex_constraint_poly(expr, resolve, presub=()):
     return eval(e, {"__builtins__": {}}, env)
 
 
-def documented_chiplet_constraints(ctx, F, V, chip, docfile, after, group, resolve, presub, index_names, sel_var, floor):
+def documented_chiplet_constraints(ctx, F, V, chip, docfile, after, group, resolve, presub, index_names, sel_var, floor, jrange=None, until=None):
     """every `> $$ ... = 0 $$` constraint of the given design document (from the marker `after` on) is present, up to a unit,
     among `group`; selector-gated alternatives may be implemented as their sum"""
     path = os.path.join(extract.REPO, docfile)
     txt = open(path).read()
     start = txt.index(after) if after and after in txt else 0
+    if until and until in txt[start:]:
+        txt = txt[:start + txt[start:].index(until)]
     docs = []
+    multi = []
     for m in re.finditer(r"^>\s*\$\$\n(.*?)\n\$\$", txt[start:], re.S | re.M):
         body = m.group(1).strip()
-        if "= 0" not in body or "\\prod" in body or "alpha" in body or "b_{chip}" in body:
+        if "\\prod" in body or "alpha" in body or "b_{chip}" in body:
+            continue
+        line0 = txt[:start + m.start()].count("\n") + 2
+        parts = [x.strip() for x in re.split(r"\\\\\s*\n", body)]
+        if len(parts) > 1:
+            for k_, part in enumerate(parts):
+                if "= 0" in part:
+                    multi.append((line0 + k_, part))
+            continue
+        if "= 0" not in body:
             continue
         lhs = body.split("= 0")[0]
-        line = txt[:start + m.start()].count("\n") + 2
+        line = line0
         quant = re.search(r"\\text\{\s*for\s*\}\s*([a-z])\s*\\in\s*\\\{([0-9,\s]+)\\\}", body)
         if quant:
             insts = [re.sub(r"_%s\b" % quant.group(1), "_%s" % k.strip(), lhs) for k in quant.group(2).split(",")]
-        elif re.search(r"[%s]_i" % index_names, lhs) and "\\sum" not in lhs:
+        elif index_names and re.search(r"[%s]_i" % index_names, lhs) and "\\sum" not in lhs:
             insts = [lhs.replace("_i", "_%d" % i) for i in range(4)]
         else:
             insts = [lhs]
         for f in insts:
             docs.append((line, f.strip()))
+    for line, part in multi:
+        docs.append((line, part.split("= 0")[0].strip()))
+    if jrange:
+        exp = []
+        for line, f in docs:
+            if re.search(r"_\{?j|'_j", f):
+                for j in jrange:
+                    g = re.sub(r"_\{\s*j\s*\+\s*(\d+)\s*\}", lambda mm: "_{%d}" % (j + int(mm.group(1))), f)
+                    g = re.sub(r"_\{?j\}?", "_{%d}" % j, g)
+                    exp.append((line, g))
+            else:
+                exp.append((line, f))
+        docs = exp
     ctx.floor("documented-%s-constraints" % chip, len(docs), floor)
     parsed = []
     for line, f in docs:
@@ -796,6 +831,96 @@ def r6c_memory_docs(ctx, F):
     documented_chiplet_constraints(ctx, F, V, "memory", "docs/src/design/chiplets/memory.md", "### AIR constraints", group, resolve, presub, "v", None, 15)
 
 
+def r6d_hasher_docs(ctx, F):
+    """selector, node-index and state-copy constraints of docs/src/design/chiplets/hasher.md (flags expanded from the
+    instruction-flag table) are present among the hasher chiplet's constraints; the RPO round constraints are not listed there"""
+    V = AirView(F)
+    ch = F.const(r"^miden_air::trace::CHIPLETS_OFFSET$")
+    lo, hi = V.R["ranges"]["chiplets"]
+    slots = V.by_name["Noop"][lo:hi]
+    n_sel = F.const(r"^miden_air::constraints::chiplets::NUM_CONSTRAINTS$")
+    n_h = F.const(r"^miden_air::constraints::chiplets::hasher::NUM_CONSTRAINTS$")
+    # hasher flag: 1 - s0 (chiplet selector of the current row)
+    group = [p.subst({"c%d" % ch: 0}) for p in slots[n_sel:n_sel + n_h] if isinstance(p, Poly)]
+    rng = lambda name: F.const(r"^miden_air::trace::chiplets::%s$" % name)
+    s0 = rng("HASHER_SELECTOR_COL_RANGE")["fields"][0]
+    h0 = rng("HASHER_STATE_COL_RANGE")["fields"][0]
+    idx = rng("HASHER_NODE_INDEX_COL_IDX")
+    path = os.path.join(extract.REPO, "docs/src/design/chiplets/hasher.md")
+    txt = open(path).read()
+    flags = {}
+    for m in re.finditer(r"^\|\s*\$f_\{(\w+)\}\$\s*\|\s*\$([^$]+)\$\s*\|", txt, re.M):
+        flags[m.group(1)] = m.group(2).strip()
+    for m in re.finditer(r"flag \$f_\{(\w+)\}('?)\s*=\s*([^$]+)\$", txt):
+        flags[m.group(1) + ("'" if m.group(2) else "")] = m.group(3).strip()
+    m = re.search(r"f_\{an\}\s*=\s*([^\n$]+)", txt)
+    if m:
+        flags["an"] = m.group(1).strip()
+    ctx.floor("hasher-flag-definitions", len(flags), 12)
+    presub = [(r"b(?![a-z_{])", "(i - 2 \\\\cdot i')")]
+    # longest names first; primed variants before plain ones; definitions may refer to other flags (f_an)
+    order = sorted(flags, key=lambda k: (-len(k), k))
+    for k in order:
+        nm = k.rstrip("'")
+        pat = r"f_\{%s\}'" % nm if k.endswith("'") else r"f_\{%s\}(?!')" % nm
+        presub.append((pat, "(" + flags[k].replace("\\", "\\\\") + ")"))
+    presub = [(r"f_\{an\}", "(" + flags.get("an", "0").replace("\\", "\\\\") + ")")] + presub if "an" in flags else presub
+
+    def resolve(base, sub, primed):
+        pre = "n" if primed else "c"
+        if base == "k":
+            return Poly.var("p%d" % int(sub))
+        if base == "s":
+            return Poly.var(pre + str(s0 + int(sub)))
+        if base == "h":
+            return Poly.var(pre + str(h0 + int(sub)))
+        if base == "i" and sub is None:
+            return Poly.var(pre + str(idx))
+        raise KeyError("%s_%s" % (base, sub))
+    documented_chiplet_constraints(ctx, F, V, "hasher", "docs/src/design/chiplets/hasher.md", "## AIR constraints", group, resolve, tuple(presub), "", None, 15,
+                                   jrange=range(4), until="### Multiset check constraints")
+
+
+def r6e_no_vacuous_periodic(ctx, F):
+    """no transition constraint vanishes identically at every row position of its periodic cycle: a constraint gated by a product
+    of periodic masks that are never 1 together (e.g. the last-row and the first-row mask of the 8-row hasher cycle) is
+    enforced nowhere"""
+    V = AirView(F)
+    nper = F.const(r"^miden_air::constraints::chiplets::hasher::NUM_PERIODIC_COLUMNS$")
+    RINV = pow(2 ** 64 % P, -1, P)
+
+    def mask(name):
+        k = F.const(name)
+        vals = [(v if isinstance(v, int) else v.get("val", v)) for v in (k["fields"] if isinstance(k, dict) else k)]
+        return [v * RINV % P if v > 1 else v for v in vals]
+    masks = {"p0": mask(r"^miden_air::constraints::chiplets::hasher::HASH_K0_MASK$"), "p1": mask(r"^miden_air::constraints::chiplets::hasher::HASH_K1_MASK$"),
+             "p2": mask(r"^miden_air::constraints::chiplets::hasher::HASH_K2_MASK$"),
+             "p%d" % nper: mask(r"^miden_air::constraints::chiplets::bitwise::BITWISE_K0_MASK$"), "p%d" % (nper + 1): mask(r"^miden_air::constraints::chiplets::bitwise::BITWISE_K1_MASK$")}
+    ok_masks = all(len(m) == 8 and set(m) <= {0, 1} for m in masks.values())
+    ctx.inst(key="periodic-masks", nontrivial=True)
+    ctx.oblig(ok_masks)
+    if not ok_masks:
+        ctx.violation("periodic-masks", "air/src/constraints/chiplets", "periodic selector masks are not 0/1 columns of length 8: %s" % masks)
+        return
+    lo, hi = V.R["ranges"]["chiplets"]
+    polys = V.by_name["Noop"]
+    n = 0
+    for ci, poly in enumerate(polys):
+        if not isinstance(poly, Poly) or not (set(masks) & poly.vars()):
+            continue
+        n += 1
+        ctx.inst(key="constraint#%d" % ci, nontrivial=True)
+        alive = [pos for pos in range(8) if not poly.subst({k: m[pos] for k, m in masks.items()}).is_zero()]
+        ctx.oblig(bool(alive))
+        if not alive:
+            used = sorted(set(masks) & poly.vars())
+            nxt = sorted((v for v in poly.vars() if re.match(r"^n\d+$", v)), key=lambda v: int(v[1:]))
+            ctx.violation("vacuous-constraint|%s|%s" % ("*".join(used), ",".join(nxt)), "air/src/constraints/chiplets/%s/mod.rs" % ("hasher" if ci < lo + 36 else "bitwise"),
+                          "transition constraint #%d is multiplied by the periodic masks %s, which are never 1 on the same row of the 8-row cycle: it vanishes on every row and enforces nothing (%s)"
+                          % (ci, used, V.pretty(poly)[:160]))
+    ctx.floor("constraints-with-periodic-masks", n, 20)
+
+
 def run(ctx, F):
     ctx.trusted += ["rustc MIR (nightly) via mirfacts", "mirsym abstract interpreter (exact polynomials over GF(2^64-2^32+1))",
                     "docs/src/design as the specification oracle (parsed at run time)", "frozen tables CONDITIONAL/EXEMPT in vlib/rules_c04.py"]
@@ -813,4 +938,6 @@ def run(ctx, F):
     ctx.run_rule("C04-R5", "range-checker transition roots {0,3^0..3^7} and the b_range LogUp identity", r5_range, F)
     ctx.run_rule("C04-R6b", "bitwise chiplet: every documented constraint (design/chiplets/bitwise.md), including the binary checks of all eight decomposition columns, is present among the chiplet's constraints", r6b_bitwise_docs, F)
     ctx.run_rule("C04-R6c", "memory chiplet: every documented constraint of design/chiplets/memory.md (AIR constraints section) is present among the chiplet's constraints", r6c_memory_docs, F)
+    ctx.run_rule("C04-R6d", "hasher chiplet: the documented selector, node-index and state-copy constraints (design/chiplets/hasher.md, flags expanded from the instruction-flag table) are present among the chiplet's constraints", r6d_hasher_docs, F)
+    ctx.run_rule("C04-R6e", "no transition constraint is gated by periodic masks that are never 1 on the same row (vanishing at all 8 positions of its cycle)", r6e_no_vacuous_periodic, F)
     ctx.run_rule("C04-R6", "chiplet constraint slots gated by their selectors; listed next-row columns occur; selector constraints exact", r6_chiplets, F)
